@@ -335,8 +335,11 @@ def run_case(case):
         # ---- (d) noise scaling, read off deterministically ----------------------------------------------------
         noise = np.where(noise_on, 10 ** rng.uniform(-5, 0, 3), 0.0)
         walk = np.where(walk_on, 10 ** rng.uniform(-6, -1, 3), 0.0)
+        b_d = b.copy()
+        if rng.random() < 0.4:
+            b_d[walk_on & (rng.random(3) < 0.7)] = 0.0          # walk on an axis whose constant bias is exactly zero
         rs = RecordingRandomState(int(rng.integers(0, 2 ** 31)))
-        npar = inertial_sensor.Parameters(T, b, noise, walk, rng=rs)
+        npar = inertial_sensor.Parameters(T, b_d, noise, walk, rng=rs)
         got = npar.apply(clean, sensor_type).values
         if len(rs.record) != 2 or rs.record[0].shape != (m, 3):
             fail('rng_protocol', f'Parameters.apply drew {len(rs.record)} normal arrays')
@@ -350,7 +353,7 @@ def run_case(case):
             q_axis[[a for a in range(3) if bias_on[a] and walk_on[a]]] = est_model.q
             v_axis = np.zeros(3)
             v_axis[noise_on] = est_model.v
-            bias_t = b + q_axis * np.cumsum(W1 * np.sqrt(d0)[:, None], axis=0)
+            bias_t = b_d + q_axis * np.cumsum(W1 * np.sqrt(d0)[:, None], axis=0)
             if sensor_type == 'rate':
                 exp = clean.values @ T.T + bias_t + v_axis * dt[:, None] ** -0.5 * W2
             else:
@@ -361,8 +364,12 @@ def run_case(case):
             if e > 1e-12 * (1 + np.abs(exp).max()):
                 fail('noise_scaling', f'{sensor_type}: simulated noise / bias walk is not what the estimator assumes '
                      f'(white noise v dt^{"-1/2" if sensor_type == "rate" else "+1/2"}, walk step q dt^1/2): max diff {e:.3e}')
-            if list(npar.data_frame.columns)[:int(bias_on.sum())] != [f'bias_{XYZ[a]}' for a in range(3) if (b[a] != 0 or walk[a] != 0)][:int(bias_on.sum())]:
-                pass
+            exp_tab = [f'bias_{XYZ[a]}' for a in range(3) if (b_d[a] != 0 or walk[a] != 0)] + \
+                [f'sm_{XYZ[o]}{XYZ[i]}' for o in range(3) for i in range(3) if T[o, i] != (1 if o == i else 0)]
+            bump('noisy_table_naming_checked')
+            if list(npar.data_frame.columns) != exp_tab:
+                fail('naming', f'parameter table columns {list(npar.data_frame.columns)} but non-trivial parameters are {exp_tab} '
+                     f'(bias {b_d.tolist()}, bias_walk {walk.tolist()})')
             for a in range(3):
                 c = f'bias_{XYZ[a]}'
                 if c in npar.data_frame and np.abs(npar.data_frame[c].values - bias_t[:, a]).max() > 1e-12 * (1 + np.abs(bias_t).max()):
